@@ -29,6 +29,9 @@ type execResult struct {
 	// then not exhaustive
 	incomplete string
 	pending    []pendingLin
+	// crash: the execution's mutation log and call history, for the crash
+	// enumeration that follows it (engine A+X)
+	crash *crashJob
 	trace     schedTrace
 	aborted   string
 	outcome   string // canonical observation vector of the execution
@@ -67,6 +70,11 @@ type Explorer struct {
 	shard    int
 	nshards  int
 	unit     int
+	// crashSeen deduplicates (crash image, allowed sets) across the
+	// executions of one scenario
+	crashSeen map[[40]byte]struct{}
+	// crashOnly restricts the crash enumeration to one image (replay)
+	crashOnly *replaySpec
 }
 
 func preemptionsBefore(ds []decision, i int) int {
@@ -134,6 +142,13 @@ func (e *Explorer) explore(prefix []int, parent []decision, depth int) {
 		e.capped = true
 		return
 	}
+	var crashViols []*Violation
+	if x.viol == nil && x.crash != nil && mine {
+		crashViols = e.crashCheck(x)
+		if len(crashViols) > 0 {
+			x.viol = crashViols[0]
+		}
+	}
 	record := mine
 	if x != nil && x.incomplete != "" {
 		e.c.count("incomplete_executions", 1)
@@ -160,14 +175,25 @@ func (e *Explorer) explore(prefix []int, parent []decision, depth int) {
 		e.capped = true
 		return
 	}
-	if x.viol != nil && record {
-		v := x.viol
+	viols := crashViols
+	if len(viols) == 0 && x.viol != nil {
+		viols = []*Violation{x.viol}
+	}
+	for _, v := range viols {
+		if !record {
+			break
+		}
 		v.Property = e.sc.Prop
 		if v.Config == "" {
 			v.Config = e.sc.Cfg.String()
 		}
 		v.History = e.sc.Desc
-		v.Replay = map[string]any{"engine": "A", "scenario": e.sc.Name, "choices": choicesOf(x.trace.decisions), "schedule": x.trace.steps}
+		rp := map[string]any{"engine": "A", "scenario": e.sc.Name, "choices": choicesOf(x.trace.decisions), "schedule": x.trace.steps}
+		if x.crash != nil && v.Oracle == "crash" {
+			rp["crash_before_mutation"] = v.crashAt
+			rp["torn_bytes"] = v.crashTorn
+		}
+		v.Replay = rp
 		e.c.violation(v, preemptionsBefore(x.trace.decisions, len(x.trace.decisions))*100000+len(x.trace.decisions))
 	}
 	if e.sc.MaxExec > 0 && e.execs >= e.sc.MaxExec {
